@@ -35,6 +35,7 @@ var classes = []*Class{
 	{ID: "pos", Re: `[1-9]\d*`, Full: `[1-9]\d*`, Samples: []string{"1", "22", "90"}, Near: []string{"0", "01", "a"}},
 	{ID: "word", Re: `\w+`, Full: `\w+`, Samples: []string{"a1", "_c", "abc"}, Near: []string{"a-b", "x.y", ""}},
 	{ID: "xy", Re: `(?:x|y)+`, Full: `(?:x|y)+`, Samples: []string{"x", "xy", "yyx"}, Near: []string{"z", "xz", ""}},
+	{ID: "ncg2", Re: `(?:ab|cd)-(?:\d+)`, Full: `(?:ab|cd)-(?:\d+)`, Samples: []string{"ab-1", "cd-22", "ab-007"}, Near: []string{"ab", "ab-", "ef-1", ""}}, // begins and ends with a non-capturing group
 	{ID: "d2", Re: `\d{2}`, Full: `\d{2}`, Samples: []string{"12", "07"}, Near: []string{"1", "123", "ab"}},
 	{ID: "dotplus", Re: `.+`, Full: `.+`, Samples: []string{"a", "a/b", "x.y/1"}, Near: []string{""}, Spans: true},
 	{ID: "gnum", VarName: "num", Full: `[1-9][0-9]*`, Samples: []string{"1", "22", "90"}, Near: []string{"0", "01", "a"}},
